@@ -235,7 +235,7 @@ def rule_meta(ctx, rci):
             bar = tr.attrs["bars"][0]
             entry = bar.attrs["bar"][0]
             note = entry[2].attrs["notes"][0]
-            pitch = 12 * note.attrs["octave"] + nd.pitch_of_concrete(note.attrs["name"])
+            pitch = nd.pitch_number(note.attrs["name"], note.attrs["octave"])
             facts = (tr.attrs.get("name"), nr, pitch, note.attrs.get("channel"), note.attrs.get("velocity"))
             if facts != ("Lead Guitar", 29, 61, 3, 99):
                 ok, why = False, "(track name, program, pitch number, channel, velocity) come back as %r, written ('Lead Guitar', 29, 61, 3, 99)" % (facts,)
@@ -341,7 +341,7 @@ def rule_rebuild(ctx, rci):
                 for bar in tr.attrs["bars"]:
                     for entry in bar.attrs["bar"]:
                         cont = entry[2]
-                        ps = () if cont is None else tuple(12 * n.attrs["octave"] + nd.pitch_of_concrete(n.attrs["name"]) for n in cont.attrs["notes"])
+                        ps = () if cont is None else tuple(nd.pitch_number(n.attrs["name"], n.attrs["octave"]) for n in cont.attrs["notes"])
                         got.append((int(round(Fraction(288) / Fraction(entry[1]).limit_denominator(10000))), ps))
                 want = _normalise(entries)
                 if _normalise(got) != want:
